@@ -177,6 +177,18 @@ def tailLossAux : Nat → Bool → Bytes → Bool
 
 def tailLoss (bs : Bytes) : Bool := tailLossAux 0 false bs
 
+/-- Does `bs` end inside a multi-byte sequence (`error_len() == None`)?  Used only to classify failures. -/
+def endsTruncatedAux : Nat → Bytes → Bool
+  | _, [] => false
+  | k + 1, _ :: r => endsTruncatedAux k r
+  | 0, b :: r =>
+    match utf8Step (b :: r) with
+    | .ok n => endsTruncatedAux (n - 1) r
+    | .err none => true
+    | .err (some k) => endsTruncatedAux (k - 1) r
+
+def endsTruncated (bs : Bytes) : Bool := endsTruncatedAux 0 bs
+
 /-! ## `HtmlRenderer` -/
 
 /-- `"<span "` -/
